@@ -2,7 +2,7 @@ SPECIFICATION Spec
 CONSTANTS
   RootTpls = {"var", "root"}
   ATpls = {"idx2", "meth"}
-  ABTpls = {"none", "base"}
+  ABTpls = {"none"}
   Segs = {"a", "x"}
   MaxLen = 2
   Methods = {"GET"}
